@@ -458,6 +458,8 @@ static void DecodeDATA_AVR(Word Index) {
                 case TempInt:
                     if (ChkRange(t.Contents.Int, MinV, MaxV)) {
                         PlaceValue(t.Contents.Int, Packing);
+                    } else {
+                        OK = False;
                     }
                     break;
                 case TempFloat:
